@@ -15,7 +15,7 @@ Print Assumptions step_hooks_always_paired.
    hook_failed <-> one of its own sites raised; a raising opening hook keeps the body from running *)
 Theorem scenario_hook_trace :
   forall cfg, all_hooks cfg -> forall st id all_steps oe eff own st' res fld ev,
-    c_expr cfg eff = true ->
+    sel cfg eff = true ->
     run_scenario cfg st id all_steps oe eff own = (st', res, fld, ev) ->
     exists body,
       hooks_of ev = map (pair HBeforeTag) own ++ [(HBeforeScenario, id)] ++ body
@@ -30,7 +30,7 @@ Print Assumptions scenario_hook_trace.
 
 Theorem rule_hook_trace :
   forall cfg, all_hooks cfg -> forall st r anc inh fhb st' res fld ev,
-    rule_should_run cfg anc r = true ->
+    rule_runs cfg anc r = true ->
     run_rule cfg st r anc inh fhb = (st', res, fld, ev) ->
     exists body,
       hooks_of ev = map (pair HBeforeTag) (r_tags r) ++ [(HBeforeRule, r_id r)] ++ body
@@ -88,7 +88,7 @@ Print Assumptions no_hooks_in_dry_run.
 
 Theorem no_hooks_for_deselected_rule :
   forall cfg st r anc inh fhb,
-    aborted st = false -> rule_should_run cfg anc r = false ->
+    aborted st = false -> rule_runs cfg anc r = false ->
     forallb (sitem_nonempty (inh ++ opt_steps (r_bg r))) (r_items r) = true ->
     exists res ev, run_rule cfg st r anc inh fhb = (st, res, false, ev) /\
       rr_status res = skipped /\ rr_hook_failed res = false /\ allq ev = true.
@@ -135,8 +135,8 @@ Print Assumptions unaffected_scenario_runs_identically.
 Example interference_example :
   let hooks := [HBeforeAll; HAfterAll; HBeforeFeature; HAfterFeature; HBeforeRule; HAfterRule;
                 HBeforeScenario; HAfterScenario; HBeforeStep; HAfterStep; HBeforeTag; HAfterTag] in
-  let free := mkCfgData false false true TTrue hooks [] [] 99 false in
-  let flt := mkCfgData false false true TTrue hooks [(HBeforeScenario, 4)] [] 99 false in
+  let free := mkCfgData false false true TTrue hooks [] [] 99 false None in
+  let flt := mkCfgData false false true TTrue hooks [(HBeforeScenario, 4)] [] 99 false None in
   let f := mkFeature 1 [7] None [FRule (mkRule 2 [8] None [SScen (mkScen 4 [9] [mkStep KPass 5]);
                                                            SScen (mkScen 6 [] [mkStep KFail 7])])] in
   let g := mkFeature 10 [] None [FItem (SScen (mkScen 11 [] [mkStep KPass 12]))] in
@@ -154,7 +154,7 @@ Example nested_trace :
   let cfg := mkCfgData false false true TTrue
                [HBeforeAll; HAfterAll; HBeforeFeature; HAfterFeature; HBeforeRule; HAfterRule;
                 HBeforeScenario; HAfterScenario; HBeforeStep; HAfterStep; HBeforeTag; HAfterTag]
-               [(HBeforeScenario, 4)] [] 99 false in
+               [(HBeforeScenario, 4)] [] 99 false None in
   let f := mkFeature 1 [7] None [FRule (mkRule 2 [8] None [SScen (mkScen 4 [9] [mkStep KPass 5])])] in
   hooks_of (snd (run_case (cfg, [f]))) =
   [(HBeforeAll, 0); (HBeforeTag, 7); (HBeforeFeature, 1); (HBeforeTag, 8); (HBeforeRule, 2);
